@@ -147,10 +147,37 @@ class StmtMixin:
                 continue
             st_t, st_f = self.branch(s, self.truth(s, c))
             if st_t is not None:
+                self.refine(st_t, n.test, True)
                 out.extend(self.exec_block(st_t, n.body))
             if st_f is not None:
+                self.refine(st_f, n.test, False)
                 out.extend(self.exec_block(st_f, n.orelse))
         return out
+
+    def refine(self, st, test, outcome):
+        """after branching on `x is None` / `x is not None` / `x` / `not x` for a local x holding an
+        optional value, replace x by its case (type refinement; the path condition already has the fact)"""
+        if isinstance(test, ast.UnaryOp) and isinstance(test.op, ast.Not):
+            return self.refine(st, test.operand, not outcome)
+        if isinstance(test, ast.BoolOp):
+            if isinstance(test.op, ast.And) and outcome or isinstance(test.op, ast.Or) and not outcome:
+                for v in test.values:
+                    self.refine(st, v, outcome)
+            return
+        name, is_none = None, None
+        if isinstance(test, ast.Compare) and len(test.ops) == 1 and isinstance(test.left, ast.Name) \
+                and isinstance(test.comparators[0], ast.Constant) and test.comparators[0].value is None:
+            if isinstance(test.ops[0], (ast.Is, ast.Eq)):
+                name, is_none = test.left.id, outcome
+            elif isinstance(test.ops[0], (ast.IsNot, ast.NotEq)):
+                name, is_none = test.left.id, not outcome
+        elif isinstance(test, ast.Name) and outcome:
+            name, is_none = test.id, False
+        if name is None:
+            return
+        v, fid = st.lookup(name)
+        if isinstance(v, VOpt):
+            st.frames[fid][name] = VNone() if is_none else self.wf(st, v.some())
 
     def s_Match(self, st, n):
         out = []
@@ -223,7 +250,22 @@ class StmtMixin:
                 out.append(s)
                 continue
             if isinstance(vals[0], VList) and isinstance(n.op, ast.Add):
-                self.unsupported(n, 'list +=')
+                # list += [a, b, ...]  (extend by a list of statically known length)
+                rhs = vals[1]
+                items = None
+                if isinstance(rhs, VTuple):
+                    items = rhs.items
+                elif isinstance(rhs, VList):
+                    ln = z3.simplify(self.list_len(s, rhs))
+                    if z3.is_int_value(ln):
+                        items = [self.list_at(s, rhs, z3.IntVal(i)) for i in range(ln.as_long())]
+                if items is None:
+                    self.unsupported(n, 'list += with a right-hand side of unknown length')
+                cur = [s]
+                for it in items:
+                    cur = [s2 for s1 in cur for s2, _ in self.call_external(s1, 'list.append', [vals[0], it], {}, n)]
+                out.extend(cur)
+                continue
             for s2, r in self.binop(s, n.op, vals[0], vals[1], n):
                 if s2.exc is not None:
                     out.append(s2)
